@@ -19,18 +19,7 @@ use crate::util::{catch, Caught, Rng};
 
 const TS_DEFS: &str = "CREATE TABLE t(line = '^([^;]*);([^;]*);([^;]*);([^;]*);([^;]*);([^;]*);([^;]*);([^;]*)$', line[1], line[2], line[3], line[4], line[5], line[6], line[7] => ts TIMESTAMP, line[8] => iv INTERVAL, line[1], line[2] => arr INT[], line[8] => x TEXT);\nCREATE TABLE j({.a} => a INT, {.b[0]} => b REAL, {.c.d} => c TEXT DEFAULT 'z', {.t} => t TIMESTAMP CONVERT, {.i} => i INTERVAL CONVERT);";
 
-/// text that is *almost* a literal: a literal-shaped ASCII run with a multi-byte character at a random byte offset
-/// (every offset 0..30 occurs), optionally followed by more text — for code that slices text by byte positions
-pub fn awkward_text(rng: &mut Rng) -> String {
-    let shape = *rng.pick(&["2024-03-01 12:00:00.123456 and later", "1:02:03.5 hours", "9223372036854775807000", "true or false", "-12345.678e10 units", "approximately noon or a bit later"]);
-    // every offset 0..30, with extra weight on 14..21 (the lengths of date / time literal prefixes)
-    let cut = (if rng.chance(1, 2) { 14 + rng.below(8) } else { rng.below(31) }).min(shape.len());
-    let wide = *rng.pick(&["\u{e9}", "\u{20ac}", "\u{1f600}", "\u{ff15}", "\u{3000}", "\u{130}"]);
-    let mut out: String = shape[..cut].to_owned();
-    out.push_str(wide);
-    if rng.chance(2, 3) { out.push_str(&shape[cut..]); }
-    out
-}
+use crate::gen::awkward_text;
 
 fn ts_line(rng: &mut Rng) -> String {
     let num = |rng: &mut Rng, normal: &[&str]| -> String {
@@ -57,7 +46,7 @@ fn json_line(rng: &mut Rng) -> String {
 const TS_QUERIES: &[&str] = &[
     "SELECT ts, iv, arr, x FROM t", "SELECT * FROM t", "SELECT ts + iv, ts - ts, iv + iv, iv - iv FROM t", "SELECT MIN(ts), MAX(ts), SUM(iv), AVG(iv), COUNT(*) FROM t",
     "SELECT EXTRACT(EPOCH FROM ts), EXTRACT(YEAR FROM ts), date_trunc('hour', ts), date_trunc('day', ts), date_trunc('year', ts) FROM t",
-    "SELECT ts FROM t WHERE ts > '2018-11-04 00:30:00'", "SELECT ts FROM t WHERE ts > x", "SELECT x::timestamp, x::interval, iv::int, iv::real, ts::text, iv::text FROM t",
+    "SELECT ts FROM t WHERE ts > '2018-11-04 00:30:00'", "SELECT ts FROM t WHERE ts > x", "SELECT x FROM t WHERE make_timestamp(2020, 1, 1, 0, 0, 0, 0, 0) < x", "SELECT x FROM t WHERE x >= make_timestamp(2005, 6, 17, 7, 7, 7, 0, 0) OR x = ts", "SELECT x::timestamp, x::interval, iv::int, iv::real, ts::text, iv::text FROM t",
     "SELECT arr[1], arr[0], arr[9223372036854775807], arr[-9223372036854775807 - 1], array_unique(arr), array_length(arr) FROM t",
     "SELECT STDDEV(iv), VARIANCE(iv), PERCENTILE(ts, 0.5), ARRAY_AGG(ts), STRING_AGG(x, ',') FROM t", "SELECT ts, COUNT(*) FROM t GROUP BY ts HAVING MAX(iv) > MIN(iv)",
     "SELECT greatest(ts, ts), least(iv, iv), abs(iv), -iv FROM t", "SELECT make_timestamp(2018, 11, 4, 0, 30, 0, 0, 0), make_timestamp(-262144, 1, 1, 0, 0, 0, 0, 0) + iv FROM t",
@@ -191,7 +180,7 @@ pub fn run(p: &Params) -> Run {
     // extraction over generated definitions (every pattern kind incl. split field 0 = the whole line, every column type
     // and modifier, JSON paths) and lines made for them: a panic is a failure, the rows are correspondence cases
     let mut xrng = Rng::new(p.seed ^ 0x09E);
-    crate::extract::random_cases(&mut run, &mut xrng, p.n(70, 2_000), 6, 4);
+    crate::extract::random_cases(&mut run, &mut xrng, p.n(140, 3_000), 5, 3);
     run.notes.push("every case runs under catch_unwind with overflow checks on; a panic is a failure; text-format runs and expressions are also model correspondence cases".to_owned());
     run
 }
